@@ -237,12 +237,12 @@ func cvRoundTrip(c cert.Certificate) cert.Certificate {
 func cvBuildUniverse(c *hx.Ctx) *cvUniverse {
 	u := &cvUniverse{names: cvNames{}, leafPub: map[cert.Curve][][]byte{}, wrongKey: map[cert.Curve]*cvKey{}}
 	type spec struct {
-		kind          string
-		groups        []string
-		nets4, nets6  []string
-		un4, un6      []string
-		nb, na        time.Time
-		inMemory      bool
+		kind         string
+		groups       []string
+		nets4, nets6 []string
+		un4, un6     []string
+		nb, na       time.Time
+		inMemory     bool
 	}
 	long := cvT0.Add(100 * cvYear)
 	specs := []spec{
@@ -309,13 +309,13 @@ func cvBuildUniverse(c *hx.Ctx) *cvUniverse {
 // ---- leaf construction -----------------------------------------------------------------------------
 
 const (
-	mInside = iota
-	mEdge
-	mOutWider
-	mOutAdjacent
-	mOutFamily
-	mNone
-	mFree
+	cvMInside = iota
+	cvMEdge
+	cvMOutWider
+	cvMOutAdjacent
+	cvMOutFamily
+	cvMNone
+	cvMFree
 )
 
 // cvPick builds one prefix relative to the CA prefix m according to mode.
@@ -345,7 +345,7 @@ func cvPick(c *hx.Ctx, m netip.Prefix, mode int) netip.Prefix {
 		return r
 	}
 	switch mode {
-	case mEdge:
+	case cvMEdge:
 		switch c.Intn(3) {
 		case 0:
 			return m // the CA's own prefix, unmasked as written
@@ -359,7 +359,7 @@ func cvPick(c *hx.Ctx, m netip.Prefix, mode int) netip.Prefix {
 			}
 			return mk(x, l) // first address as a host route
 		}
-	case mOutWider:
+	case cvMOutWider:
 		if m.Bits() == 0 {
 			return mk(new(big.Int).Or(base, one), 0)
 		}
@@ -368,7 +368,7 @@ func cvPick(c *hx.Ctx, m netip.Prefix, mode int) netip.Prefix {
 			x.Or(x, one)
 		}
 		return mk(x, m.Bits()-1-c.Intn(m.Bits()))
-	case mOutAdjacent:
+	case cvMOutAdjacent:
 		if m.Bits() == 0 {
 			return m
 		}
@@ -410,10 +410,10 @@ func cvNets(c *hx.Ctx, caNets []netip.Prefix, mode int, allowV6 bool, atLeastOne
 			usable = append(usable, m)
 		}
 	}
-	if mode == mNone && !atLeastOne {
+	if mode == cvMNone && !atLeastOne {
 		return nil
 	}
-	if len(usable) == 0 || mode == mFree || mode == mNone {
+	if len(usable) == 0 || mode == cvMFree || mode == cvMNone {
 		n := 1 + c.Intn(2)
 		var out []netip.Prefix
 		for i := 0; i < n; i++ {
@@ -421,9 +421,9 @@ func cvNets(c *hx.Ctx, caNets []netip.Prefix, mode int, allowV6 bool, atLeastOne
 		}
 		return out
 	}
-	if mode == mOutFamily {
+	if mode == cvMOutFamily {
 		if !allowV6 {
-			mode = mOutAdjacent
+			mode = cvMOutAdjacent
 		} else {
 			// a family the CA does not list at all (if it lists both, fall back to an adjacent block)
 			has4, has6 := false, false
@@ -440,7 +440,7 @@ func cvNets(c *hx.Ctx, caNets []netip.Prefix, mode int, allowV6 bool, atLeastOne
 			if has6 && !has4 {
 				return []netip.Prefix{cvFreePrefix(c, false)}
 			}
-			mode = mOutAdjacent
+			mode = cvMOutAdjacent
 		}
 	}
 	n := 1 + c.Intn(3)
@@ -448,8 +448,8 @@ func cvNets(c *hx.Ctx, caNets []netip.Prefix, mode int, allowV6 bool, atLeastOne
 	bad := c.Intn(n) // for the "outside" modes only one entry is outside, the rest inside
 	for i := 0; i < n; i++ {
 		m := usable[c.Intn(len(usable))]
-		md := mInside
-		if mode == mEdge || ((mode == mOutWider || mode == mOutAdjacent) && i == bad) {
+		md := cvMInside
+		if mode == cvMEdge || ((mode == cvMOutWider || mode == cvMOutAdjacent) && i == bad) {
 			md = mode
 		}
 		out = append(out, cvPick(c, m, md))
@@ -460,7 +460,7 @@ func cvNets(c *hx.Ctx, caNets []netip.Prefix, mode int, allowV6 bool, atLeastOne
 type cvLeafOpt struct {
 	version  cert.Version
 	curve    cert.Curve // curve written into the certificate
-	groups   int        // mInside | mEdge(=all CA groups) | mOutAdjacent(=one foreign group) | mNone
+	groups   int        // cvMInside | cvMEdge(=all CA groups) | cvMOutAdjacent(=one foreign group) | cvMNone
 	nets     int
 	unsafe   int
 	window   int // 0 inside, 1 edge, 2 starts before CA, 3 ends after CA, 4 short, 5 instant
@@ -484,12 +484,12 @@ func cvLeafTBS(c *hx.Ctx, u *cvUniverse, ca *cvCA, o cvLeafOpt) *cert.TBSCertifi
 	// groups
 	cg := ca.c.Groups()
 	switch {
-	case o.groups == mNone:
-	case len(cg) == 0 || o.groups == mFree:
+	case o.groups == cvMNone:
+	case len(cg) == 0 || o.groups == cvMFree:
 		for i, n := 0, c.Intn(4); i < n; i++ {
 			t.Groups = append(t.Groups, []string{"a", "b", "ops", "web", "x", "group-with-a-long-name"}[c.Intn(6)])
 		}
-	case o.groups == mEdge:
+	case o.groups == cvMEdge:
 		t.Groups = append([]string{}, cg...)
 	default:
 		for _, g := range cg {
@@ -497,7 +497,7 @@ func cvLeafTBS(c *hx.Ctx, u *cvUniverse, ca *cvCA, o cvLeafOpt) *cert.TBSCertifi
 				t.Groups = append(t.Groups, g)
 			}
 		}
-		if o.groups == mOutAdjacent {
+		if o.groups == cvMOutAdjacent {
 			foreign := []string{"root", "A", "a ", "op", "opsx"}[c.Intn(5)]
 			pos := c.Intn(len(t.Groups) + 1)
 			t.Groups = append(t.Groups[:pos], append([]string{foreign}, t.Groups[pos:]...)...)
@@ -515,7 +515,9 @@ func cvLeafTBS(c *hx.Ctx, u *cvUniverse, ca *cvCA, o cvLeafOpt) *cert.TBSCertifi
 	if span < 4*time.Second {
 		span = 4 * time.Second
 	}
-	off := func() time.Duration { return time.Duration(c.Rng.Int64N(int64(span/2-time.Second))) / time.Second * time.Second }
+	off := func() time.Duration {
+		return time.Duration(c.Rng.Int64N(int64(span/2-time.Second))) / time.Second * time.Second
+	}
 	switch o.window {
 	case 1:
 		t.NotBefore, t.NotAfter = cnb, cna
@@ -562,12 +564,12 @@ func cvLeaf(c *hx.Ctx, u *cvUniverse, ca *cvCA, o cvLeafOpt) (cert.Certificate, 
 			return lc, o
 		}
 		if try >= 3 {
-			o.unsafe = mNone
+			o.unsafe = cvMNone
 		}
 		if try >= 6 {
-			o.nets = mFree
+			o.nets = cvMFree
 			if o.version == cert.Version1 {
-				o.nets = mInside
+				o.nets = cvMInside
 			}
 		}
 		if try > 12 {
@@ -819,7 +821,7 @@ func runCertVerify(c *hx.Ctx) {
 	}
 
 	sameKey := func(ca *cvCA) cvLeafOpt {
-		o := cvLeafOpt{version: ca.c.Version(), curve: ca.c.Curve(), groups: mInside, nets: mInside, unsafe: mInside, signKey: ca.key}
+		o := cvLeafOpt{version: ca.c.Version(), curve: ca.c.Curve(), groups: cvMInside, nets: cvMInside, unsafe: cvMInside, signKey: ca.key}
 		if ca.c.Curve() == cert.Curve_P256 {
 			o.sigForm = 1
 		}
@@ -834,15 +836,15 @@ func runCertVerify(c *hx.Ctx) {
 	}
 	variants := []variant{
 		{"plain", func(o *cvLeafOpt) {}},
-		{"groups-all", func(o *cvLeafOpt) { o.groups = mEdge }},
-		{"groups-foreign", func(o *cvLeafOpt) { o.groups = mOutAdjacent }},
-		{"nets-edge", func(o *cvLeafOpt) { o.nets = mEdge }},
-		{"nets-wider", func(o *cvLeafOpt) { o.nets = mOutWider }},
-		{"nets-adjacent", func(o *cvLeafOpt) { o.nets = mOutAdjacent }},
-		{"nets-family", func(o *cvLeafOpt) { o.nets = mOutFamily; o.version = cert.Version2 }},
-		{"unsafe-edge", func(o *cvLeafOpt) { o.unsafe = mEdge }},
-		{"unsafe-wider", func(o *cvLeafOpt) { o.unsafe = mOutWider }},
-		{"unsafe-adjacent", func(o *cvLeafOpt) { o.unsafe = mOutAdjacent }},
+		{"groups-all", func(o *cvLeafOpt) { o.groups = cvMEdge }},
+		{"groups-foreign", func(o *cvLeafOpt) { o.groups = cvMOutAdjacent }},
+		{"nets-edge", func(o *cvLeafOpt) { o.nets = cvMEdge }},
+		{"nets-wider", func(o *cvLeafOpt) { o.nets = cvMOutWider }},
+		{"nets-adjacent", func(o *cvLeafOpt) { o.nets = cvMOutAdjacent }},
+		{"nets-family", func(o *cvLeafOpt) { o.nets = cvMOutFamily; o.version = cert.Version2 }},
+		{"unsafe-edge", func(o *cvLeafOpt) { o.unsafe = cvMEdge }},
+		{"unsafe-wider", func(o *cvLeafOpt) { o.unsafe = cvMOutWider }},
+		{"unsafe-adjacent", func(o *cvLeafOpt) { o.unsafe = cvMOutAdjacent }},
 		{"window-edge", func(o *cvLeafOpt) { o.window = 1 }},
 		{"window-before", func(o *cvLeafOpt) { o.window = 2 }},
 		{"window-after", func(o *cvLeafOpt) { o.window = 3 }},
@@ -900,9 +902,9 @@ func runCertVerify(c *hx.Ctx) {
 			}
 			return outs[c.Intn(len(outs))]
 		}
-		o.groups = pick3(mInside, mEdge, mOutAdjacent, mNone)
-		o.nets = pick3(mInside, mEdge, mOutWider, mOutAdjacent, mOutFamily)
-		o.unsafe = pick3(mInside, mEdge, mOutWider, mOutAdjacent, mNone, mNone)
+		o.groups = pick3(cvMInside, cvMEdge, cvMOutAdjacent, cvMNone)
+		o.nets = pick3(cvMInside, cvMEdge, cvMOutWider, cvMOutAdjacent, cvMOutFamily)
+		o.unsafe = pick3(cvMInside, cvMEdge, cvMOutWider, cvMOutAdjacent, cvMNone, cvMNone)
 		o.window = []int{0, 0, 0, 4, 4, 1, 1, 2, 3, 5}[c.Intn(10)]
 		if c.Chance(0.3) {
 			o.version = cert.Version(1 + c.Intn(2))
